@@ -343,6 +343,7 @@ EXTRA = {
   'C17': ' The auto-cast rule of add_discrete_param is regenerated at every run (harness/translate/autocast.py): INTEGER exactly when every feasible value is an integer, and a stored feasible value read through the declared type is that value (C17_source_autocast_is_the_rule, C17_source_discrete_value_presented_unchanged, C17_source_presented_as_int_iff_all_integral).',
   'C18': ' A constant label array does not divide by the zero range in the log warper: every label maps to 1/2 and un-warps to itself, for the guard and formula in the source today (C18_log_warper_constant_labels).',
 }
+EXTRA['C09'] = ' The trial ids of an EarlyStopRequest (a set, or None for all trials) come back as they were for every value but the empty set, which the wire cannot carry, with the decoder the source uses today (regenerated into Gen/EnumMaps.v; C09_source_early_stop_request_ids_roundtrip, C09_early_stop_request_ids_read_as_is_refuted).'
 EXTRA['C04'] = ' The regenerated bodies of all 17 RPC handlers are the model\'s handler programs the interleaving theorems are about (C04_source_handlers_equal_the_model: stated as an equality, it is the one theorem of this file that uses the standard library\'s FunctionalExtensionality.functional_extensionality_dep).'
 EXTRA['C05'] = ' The regenerated bodies of all 17 RPC handlers are the model\'s handler programs the crash theorems are about (C05_source_handlers_equal_the_model: stated as an equality, it is the one theorem of this file that uses the standard library\'s FunctionalExtensionality.functional_extensionality_dep).'
 for _pid, _txt in EXTRA.items():
